@@ -119,6 +119,7 @@ Qed.
 Section Main.
   Variable base : str.
   Variable pid : str.
+  Variable sesc : bool.
   Variable o_repr : json -> str.
   Variable o_configured : res bool.
   Variable o_branch : str -> res (bool * str).
@@ -132,7 +133,7 @@ Section Main.
   Variable o_fs : str -> str -> wres.
 
   Notation build := (build_statusline o_repr o_configured o_branch o_changes o_transcript o_pct o_mcp_local o_mcp_cache).
-  Notation run := (sl_main base pid o_repr o_configured o_branch o_changes o_transcript o_pct o_mcp_local o_mcp_cache
+  Notation run := (sl_main base pid sesc o_repr o_configured o_branch o_changes o_transcript o_pct o_mcp_local o_mcp_cache
                        o_age o_read o_fs).
   Notation ctxrem := (get_context_remaining o_transcript o_pct).
   Notation mcp := (get_mcp_servers o_mcp_local o_mcp_cache).
@@ -170,8 +171,8 @@ Section Main.
 
   Definition well (o : outcome) : Prop := exit_ok o = true /\ out o <> [] /\ traceback o = false.
 
-  Lemma emit_well line c st rf : well (emit true line c st rf).
-  Proof. unfold emit, well. destruct (encodable line); cbn [exit_ok out traceback]; repeat split; apply nl_nonempty. Qed.
+  Lemma emit_well line c st rf : well (emit sesc true line c st rf).
+  Proof. unfold emit, well. destruct (encodable_out sesc line); cbn [exit_ok out traceback]; repeat split; apply nl_nonempty. Qed.
 
   Lemma total_partial inp : stdout_hazard inp = false -> well (run true inp).
   Proof.
@@ -195,9 +196,9 @@ Section Main.
     { destruct (fd_is_stdout _) eqn:F; [|reflexivity]. exfalso.
       apply build_fd in F as [tp [A B]]. unfold stdout_hazard in Hz. rewrite A in Hz. congruence. }
     destruct (get_cached _ _ _ _) as [[|c cs]|] eqn:G.
-    2:{ unfold emit. destruct (encodable (c :: cs)); cbn; [left; exists (c :: cs); repeat split; auto; discriminate | auto]. }
+    2:{ unfold emit. destruct (encodable_out sesc (c :: cs)); cbn; [left; exists (c :: cs); repeat split; auto; discriminate | auto]. }
     all: rewrite F; destruct (b_out (build (data_of inp))) as [line|]; cbn; auto;
-      unfold emit; destruct (encodable line); cbn; [right; left; exists line; auto | auto].
+      unfold emit; destruct (encodable_out sesc line); cbn; [right; left; exists line; auto | auto].
   Qed.
 
   (* ---------------------------------------------------------------- provenance of characters *)
@@ -315,10 +316,10 @@ Section Main.
     assert (Hq : forall st rf, line_ok {| exit_ok := true; out := QMARK ++ NL; traceback := false; served := false;
                                           store := st; refresh := rf |}).
     { intros. right. exists QMARK. auto. }
-    assert (Hemit : forall line c st rf, Forall P line -> line_ok (emit true line c st rf)).
-    { intros. unfold emit. destruct (encodable line); [right; exists line; auto | apply Hq]. }
-    assert (Hst : forall line c st rf, store (emit true line c st rf) = st).
-    { intros. unfold emit. destruct (encodable line); reflexivity. }
+    assert (Hemit : forall line c st rf, Forall P line -> line_ok (emit sesc true line c st rf)).
+    { intros. unfold emit. destruct (encodable_out sesc line); [right; exists line; auto | apply Hq]. }
+    assert (Hst : forall line c st rf, store (emit sesc true line c st rf) = st).
+    { intros. unfold emit. destruct (encodable_out sesc line); reflexivity. }
     destruct (get_cached _ _ _ _) as [[|c cs]|] eqn:G.
     2:{ split; [apply Hemit; eapply cached_chars; eauto | rewrite Hst; exact I]. }
     all: destruct (b_out (build data)) as [line|] eqn:B;
@@ -366,7 +367,7 @@ Section Hist.
     { intros p s. unfold fread. destruct (f p) as [s0|] eqn:E; [|discriminate]. intro H; injection H as <-.
       pose proof (Hf _ _ E) as Hs. rewrite univ_nl_id; [assumption|].
       eapply Forall_impl; [|exact Hs]. auto. }
-    destruct (run_chars base (i_pid i) (i_repr i) (i_configured i) (i_branch i) (i_changes i) (i_transcript i)
+    destruct (run_chars base (i_pid i) (i_sesc i) (i_repr i) (i_configured i) (i_branch i) (i_changes i) (i_transcript i)
                 (i_pct i) (i_mcp_local i) (i_mcp_cache i) fage fread (fun _ _ => i_fs i) P HT (data_of (i_inp i))
                 C1 C2 C3 C4 C5 C6 C7 Hread (i_inp i) eq_refl) as [L S].
     fold o in L, S. cbn [fst snd]. split; [|exact L].
@@ -386,12 +387,12 @@ End Hist.
 
 (* ------------------------------------------------------------------ witnesses *)
 Definition quiet (pid : str) (inp : option json) : invocation :=
-  {| i_pid := pid; i_inp := inp; i_repr := fun _ => []; i_configured := Raise; i_branch := fun _ => Raise;
+  {| i_pid := pid; i_sesc := false; i_inp := inp; i_repr := fun _ => []; i_configured := Raise; i_branch := fun _ => Raise;
      i_changes := fun _ => Raise; i_transcript := fun _ => None; i_pct := fun _ _ => Raise; i_mcp_local := [];
      i_mcp_cache := Raise; i_age := 0%Z; i_fs := WOk |}.
 
 Definition run_quiet (guarded : bool) (inp : option json) : outcome :=
-  sl_main [47; 99] $"1" (fun _ => []) Raise (fun _ => Raise) (fun _ => Raise) (fun _ => None) (fun _ _ => Raise) [] Raise
+  sl_main [47; 99] $"1" false (fun _ => []) Raise (fun _ => Raise) (fun _ => Raise) (fun _ => None) (fun _ _ => Raise) [] Raise
       (fun _ => Raise) (fun _ => Raise) (fun _ _ => WOk) guarded inp.
 
 (* {"context_window": {"context_window_size": 100}, "transcript_path": true} *)
